@@ -101,6 +101,22 @@ theorem wavelength_policy_table :
         | Src.raw p => a.species.contains p
         | _ => false) = true := by decide
 
+/-- the repository read receives the accessor's parameters in their declared order (a swapped donor / receiver or
+beam / target would read another file) -/
+theorem get_args_in_param_order :
+    ∀ a ∈ accessors, (a.getArgs.map fun x => match x with
+      | Src.raw p => p
+      | Src.elem p => p
+      | Src.other o => o) = a.params := by decide
+
+/-- ion stage whose wavelength is looked up (as the code has it; the statement does not fix it, the correspondence
+stores the wavelengths at these stages): the emitting ion of a CX line is the receiver one stage down, the beam atom
+is neutral -/
+theorem wavelength_charge_table :
+    (accessors.filterMap fun a => a.wl.map fun c => (a.name, c.charge)) =
+      [("beam_cx_pec", "receiver_charge - 1"), ("beam_emission_pec", "0"), ("impact_excitation_pec", "charge"),
+       ("recombination_pec", "charge"), ("thermal_cx_pec", "receiver_charge - 1")] := by decide
+
 /-- **missing-data clause on today's table**: every accessor outside the excuse list raises `RuntimeError` on missing
 data, or returns its Null rate when nulls were requested — `policy_uniform_partial` fed into `missing_policy` -/
 theorem missing_policy_table (a : Accessor) (ha : a ∈ accessors) (hn : a.name ∉ knownPolicyDeviants) (c : Call)
